@@ -41,7 +41,7 @@ def run(m):
         res = []
         for p in props:
             try:
-                r = subprocess.run(['/verif/bin/vf', 'check', '-repo', wt, '-property', p, '-no-evidence', '-workers', str(max(2, 16 // par))], cwd='/verif', env=env, capture_output=True, timeout=900)
+                r = subprocess.run(['/verif/bin/vf', 'check', '-repo', wt, '-property', p, '-no-evidence', '-workers', os.environ.get('MUT_WORKERS', str(max(2, 16 // par)))], cwd='/verif', env=env, capture_output=True, timeout=900)
                 rc = r.returncode
             except subprocess.TimeoutExpired:
                 rc = 2
